@@ -133,7 +133,22 @@ func (c *nctx) normPathsNamed(fd *ast.FuncDecl) ([]bpath, map[string]string) {
 	return paths, fr.multi
 }
 
+// zeroNamedResults: named results start as zero values.
+func (e *nenum) zeroNamedResults(fr *nframe, fd *ast.FuncDecl) {
+	if fd.Type.Results == nil {
+		return
+	}
+	for _, f := range fd.Type.Results.List {
+		for _, nm := range f.Names {
+			if num, ok := fr.multi[nm.Name]; ok && nm.Name != "_" {
+				e.add(pev{"set", num + "=zero", fd})
+			}
+		}
+	}
+}
+
 func (e *nenum) runTop(fr *nframe, fd *ast.FuncDecl) []bpath {
+	e.zeroNamedResults(fr, fd)
 	e.stmts(fr, fd.Body.List)
 	if e.overflow {
 		return nil
@@ -1065,6 +1080,7 @@ func (e *nenum) inline(fr *nframe, ce *ast.CallExpr, d *ast.FuncDecl, retTo []as
 			}
 		}
 	}
+	e.zeroNamedResults(nf, d)
 	// loop variables of the caller stay visible through the substituted argument texts only
 	e.inlining[d] = true
 	if e.c.expanded != nil {
@@ -1126,6 +1142,24 @@ func (e *nenum) hoistCond(fr *nframe, cond ast.Expr) ast.Expr {
 		if c.Op == token.NOT {
 			if h := e.hoistCond(fr, c.X); h != c.X {
 				return &ast.UnaryExpr{Op: token.NOT, X: h, OpPos: c.OpPos}
+			}
+		}
+	case *ast.BinaryExpr:
+		// helper(x) == y, helper(x) != y (and mirrored): the helper's result is compared after it was computed
+		if c.Op == token.EQL || c.Op == token.NEQ {
+			if h := e.hoistCond(fr, c.X); h != c.X {
+				if _, isID := h.(*ast.Ident); isID {
+					cp := *c
+					cp.X = h
+					return &cp
+				}
+			}
+			if h := e.hoistCond(fr, c.Y); h != c.Y {
+				if _, isID := h.(*ast.Ident); isID {
+					cp := *c
+					cp.Y = h
+					return &cp
+				}
 			}
 		}
 	case *ast.CallExpr:
